@@ -165,6 +165,8 @@ class Pipe(BranchWInternalsComponent):
             extract_branch_results_with_internals(net, branch_results, cls.table_name(), res_nodes_from_hyd,
                 res_nodes_from_ht, res_nodes_to_hyd, res_nodes_to_ht, res_mean_hyd, res_branch_ht, [],
                 cls.internal_node_name(), mode)
+            # the friction loss of a pipe is the sum over its sections, not the mean
+            net["res_" + cls.table_name()]["dp_friction_loss_bar"] *= cls.get_internal_branch_number(net)
         else:
             required_results_hyd = res_nodes_from_hyd + res_nodes_to_hyd + res_mean_hyd
             required_results_ht = res_nodes_from_ht + res_nodes_to_ht + res_branch_ht
